@@ -8,6 +8,7 @@ import (
 	"html"
 	"math"
 	"net/url"
+	"reflect"
 	"regexp"
 	"strings"
 	"time"
@@ -328,27 +329,68 @@ func splitFilter(s, sep string) any {
 func uniqFilter(a []any) (result []any) {
 	// elements are the same when they are equal as Liquid values (== in a template):
 	// 1 and 1.0, a Drop and its value, a typed and a generic slice with equal elements
-	seenStrings := map[string]bool{}
+	seen := map[any]bool{} // the scalars kept so far, by a key that is the same for equal values
+	var others []any       // what has been kept and has no such key (arrays, maps, ...)
 	for _, item := range a {
 		item = values.ToLiquid(item)
-		if s, ok := item.(string); ok {
-			// a string equals only strings
-			if !seenStrings[s] {
-				seenStrings[s] = true
-				result = append(result, item)
-			}
+		key, hasKey := uniqKey(item)
+		if hasKey && seen[key] {
 			continue
 		}
 		dup := false
-		for _, other := range result {
+		for _, other := range others {
 			if values.Equal(item, other) {
 				dup = true
 				break
 			}
 		}
-		if !dup {
-			result = append(result, item)
+		if dup {
+			continue
 		}
+		if hasKey {
+			seen[key] = true
+		} else {
+			others = append(others, item)
+		}
+		result = append(result, item)
 	}
 	return
+}
+
+// uniqKey returns a comparable key that two nil, boolean, string or numeric values share exactly when they are
+// equal as Liquid values (1, 1.0 and uint8(1) share one key).
+func uniqKey(v any) (any, bool) {
+	type numKey struct {
+		neg bool
+		abs uint64
+	}
+	switch x := v.(type) {
+	case nil:
+		return nil, true
+	case bool, string:
+		return x, true
+	}
+	rv := reflect.ValueOf(v)
+	switch rv.Kind() {
+	case reflect.Int, reflect.Int8, reflect.Int16, reflect.Int32, reflect.Int64:
+		if n := rv.Int(); n < 0 {
+			return numKey{true, uint64(-(n + 1)) + 1}, true
+		} else {
+			return numKey{false, uint64(n)}, true
+		}
+	case reflect.Uint, reflect.Uint8, reflect.Uint16, reflect.Uint32, reflect.Uint64:
+		return numKey{false, rv.Uint()}, true
+	case reflect.Float32, reflect.Float64:
+		f := rv.Float()
+		switch {
+		case f != f: // NaN equals nothing
+			return nil, false
+		case f == math.Trunc(f) && f >= 0 && f < 1<<64:
+			return numKey{false, uint64(f)}, true
+		case f == math.Trunc(f) && f < 0 && f >= -(1<<63):
+			return numKey{true, uint64(-f)}, true
+		}
+		return f, true
+	}
+	return nil, false
 }
